@@ -261,7 +261,16 @@ def check_ws_identity(ctx):
             top = c
             while isinstance(parents.get(top), (ast.BoolOp, ast.UnaryOp)):
                 top = parents[top]
-            why = ACCEPTED_WS_MEMBERSHIP.get((f.short, canon(top)))
+            # the one accepted role: the test that decides where the whitespace behind a terminator goes (guarded by the consume_ws flag)
+            guards_ = [top]
+            a_ = c
+            while a_ in parents:
+                a_ = parents[a_]
+                if isinstance(a_, (ast.If, ast.While)):
+                    guards_.append(a_.test)
+            why = None
+            if f.name == 'process' and any(isinstance(y, ast.Attribute) and y.attr == 'consume_ws' for g_ in guards_ for y in ast.walk(g_)):
+                why = ACCEPTED_WS_MEMBERSHIP['consume_ws']
             key = f'{f.short}:{canon(top)[:70]}'
             loc = f'{f.mod.relpath}:{c.lineno}'
             if why:
@@ -278,7 +287,7 @@ def canon(node):
 
 
 ACCEPTED_WS_MEMBERSHIP = {
-    ('engine.statement_splitter.StatementSplitter.process', 'self.consume_ws and ttype not in EOS_TTYPE'):
+    'consume_ws':
         'decides only where the whitespace behind a terminator goes: blanks and a -- comment stay with the finished statement, a line break starts the '
         'next one; the statements, their types and their significant tokens are the same (split() strips both)',
 }
